@@ -9,8 +9,13 @@ from core import Driver, Failure, q, ql
 
 ID = "C06"
 from genf import translate  # noqa: E402,F401  (regenerates lean/PyribsGen/Formulas.lean from the tree under check)
-PROOF_MODULES = ["PyribsProofs.C06", "PyribsProofs.C06b", "PyribsProofs.Cqd", "PyribsProofs.C14b", "PyribsProofs.C15b", "PyribsGen.Formulas", "PyribsProofs.GenF"]
+PROOF_MODULES = ["PyribsProofs.C06", "PyribsProofs.C06b", "PyribsProofs.Cqd", "PyribsProofs.C14b", "PyribsProofs.C15b", "PyribsGen.Formulas", "PyribsProofs.GenF",
+                 "PyribsGen.Control", "PyribsProofs.GenFArch"]
 THEOREMS = [
+    "Pyribs.GenFProofs.objsum_term_from_source",
+    "Pyribs.GenFProofs.objsum_delta_from_source",
+    "Pyribs.GenFProofs.objsum_new_from_source",
+    "Pyribs.GenFProofs.stats_max_from_source",
     "Pyribs.GenFProofs.stats_match",
     "Pyribs.GenFProofs.cqd_value_matches",
     "Pyribs.C06.sum_point_update",
